@@ -201,7 +201,9 @@ impl Property for C15 {
             let Some(b) = sjis_encode(s) else { carry = 0; continue; };
             let total = b.len() + 1 + carry;
             if carry > 0 && total + 16 >= caps[i] { any_at_capacity = true; }
-            carry = if s.starts_with('|') { (total + 3) / 4 * 4 } else { 0 };
+            // (a string whose signature lacks `furibug` neither uses nor clears the pending buffer, and block sizes differ per
+            //  signature: keep the carry until the next furigana line replaces it - an over-estimate, never an under-estimate)
+            carry = if s.starts_with('|') { (total + 15) / 16 * 16 } else { carry };
         }
         if any_unencodable { ctx.label("unencodable"); }
         if any_ambiguous { return Outcome::Discard("string outside the unambiguous Shift-JIS domain".into()); }
